@@ -231,6 +231,32 @@ def timestamp_decode_rule(ctx):
     return out
 
 
+def decimal_decode_exact(ctx):
+    """The decimal decoder rebuilds the value by an operation that keeps
+    the scale (multiplication by a power of ten, scaleb): a division gives
+    an equal number with a shorter exponent, which re-encodes to other
+    bytes.  -> [(construct, ok, why)]"""
+    d = ctx.prog.module('decode').functions.get('decimal')
+    if d is None:
+        return []
+    D = pairs.dec_desc(ctx, d)
+    out = []
+    for i, dp in enumerate(D.paths):
+        ops = sorted({t.op for t in T.subterms(dp.value)
+                      if t.op in ('div', 'truediv', 'floordiv', 'mod')} |
+                     {t.args[1] for t in T.subterms(dp.value)
+                      if t.op == 'method' and isinstance(t.args[1], str) and
+                      t.args[1] in ('normalize', 'quantize',
+                                    'to_integral_value')})
+        out.append(('decode.decimal path %d exact scale' % (i + 1), not ops,
+                    'the value is rebuilt without division / '
+                    'normalisation' if not ops else
+                    'the value is rebuilt with %s: trailing zeros are lost '
+                    '(19.90 comes back as 19.9), so it does not re-encode to '
+                    'the bytes received' % '/'.join(ops)))
+    return out
+
+
 def decimal_context_rule(ctx):
     """The decimal codec does its arithmetic under the caller's context
     (28 digits by default, enough for the 10 digits of a 32-bit unscaled
